@@ -9,7 +9,12 @@ evaluated on (a) positional calls of the functionals in their documented paramet
 also reproduce the one-element evaluations bit for bit (a module that has quoted a batch is asked again),
 and (c) prices that a Black-Scholes module takes from a simulated derivative (non-dyadic strikes, underlier
 started exactly on the strike), several derivatives sharing ONE underlier which is simulated again / cast /
-deep-copied between the quotes (the relations always refer to the paths the underlier carries now).
+deep-copied between the quotes (the relations always refer to the paths the underlier carries now),
+(d) broadcast grids on which the running maximum has MORE dimensions than spot / time / volatility (a row of spots
+against a column of histories, one spot against a vector of histories; functional, positional and module form), evaluated
+element-wise on the pairs with running maximum >= spot, and (e) contracts that are user-defined SUBCLASSES of the library
+derivatives with their own Black-Scholes module registered under their own name: BlackScholes(derivative) resolves to the
+module registered for the most derived class and the relations hold for what it quotes.
 """
 import math
 from common import *  # noqa
@@ -69,17 +74,53 @@ FNS = (("european_price", True), ("european_price", False), ("european_binary_pr
        ("american_binary_price", True), ("lookback_price", True))
 
 
-def batched_block(ctx, torch, g, n_batches):
+MAX_LAYOUTS = ("max-grid", "max-grid", "single-spot", "max-cube")
+
+
+def batched_block(ctx, torch, g, n_batches, layouts=None, items=None, metas=None):
     """one call on a tensor of scenarios (max below / at / above the strike, spot below / at its max,
     mixed in one batch; flat, matrix, broadcast grid, strided and expanded layouts) must give, element
-    by element, exactly the value of the one-element call, and the relations must hold on the batch"""
+    by element, exactly the value of the one-element call, and the relations must hold on the batch.
+
+    layouts=MAX_LAYOUTS (round 5): grids on which the RUNNING MAXIMUM carries more dimensions than spot / time /
+    volatility — a row of spots against a column of histories ((q,) against (n,1)), one 0-dim spot, time and
+    volatility against a vector of histories, a (n,1,1) stack of histories over a (r,1) x (q,) time-spot grid.
+    The path-dependent prices have the full broadcast shape, the European ones the shape of (spot, time, volatility)
+    (they are broadcast here to pair them up); only the pairs with running maximum >= spot are in the domain of the
+    property, the others are not looked at.  Two in-domain elements per batch also go to the model (op bs)."""
     from pfhedge.nn import BSEuropeanOption, BSEuropeanBinaryOption, BSAmericanBinaryOption, BSLookbackOption
     D = torch.float64
     mk = lambda xs: torch.tensor(xs, dtype=D)
     for _ in range(n_batches):
         k = g.choice([g.r.uniform(0.1, 10), 1.0, 1.1, 0.5, 7.5])
-        lay = g.choice(["flat", "flat", "matrix", "grid", "grid-strided", "expand"])
-        if lay in ("flat", "matrix"):
+        lay = g.choice(layouts or ["flat", "flat", "matrix", "grid", "grid-strided", "expand"])
+        maxlay = lay in MAX_LAYOUTS
+        if maxlay:
+            n, q, r = g.randint(2, 5), (1 if lay == "single-spot" else g.randint(2, 4)), (g.randint(1, 2) if lay == "max-cube" else 1)
+            ss = [gen_point(g, False)[0] for _ in range(q)]
+            # histories: exactly at one of the spots, exactly at the strike, just below it, above one spot, above all spots
+            ms = [g.weighted([(g.choice(ss), 2), (0.0, 2), (-1e-9, 1), (g.choice(ss) + g.r.uniform(0, 0.6), 3), (max(ss) + g.r.uniform(0, 0.6), 2)]) for _ in range(n)]
+            if not any(m >= s for m in ms for s in ss):
+                ms[0] = max(ss)
+            v0 = gen_point(g, False)[2]
+            s_, m_ = mk(ss), mk(ms)
+            if lay == "single-spot":      # everything but the running maximum 0-dimensional
+                t0 = gen_point(g, False)[1]
+                elems = [(ss[0], m, t0, v0) for m in ms]
+                shape = (n,)
+                S_, M_, T_, V_ = mk(ss[0]), m_, mk(t0), mk(v0)
+            elif lay == "max-grid":       # (q,) spots [and times / volatilities of the row shape] x (n,1) histories
+                ts = [gen_point(g, False)[1] for _ in range(q)] if g.chance(0.5) else [gen_point(g, False)[1]] * q
+                elems = [(s, m, t, v0) for m in ms for s, t in zip(ss, ts)]
+                shape = (n, q)
+                S_, M_, T_ = s_, m_[:, None], (mk(ts) if len(set(ts)) > 1 or g.chance(0.5) else mk(ts[0]))
+                V_ = g.choice([mk(v0), mk([v0] * q), mk([v0])])
+            else:                         # (n,1,1) histories x (r,1) times x (q,) spots
+                ts = [gen_point(g, False)[1] for _ in range(r)]
+                elems = [(s, m, t, v0) for m in ms for t in ts for s in ss]
+                shape = (n, r, q)
+                S_, M_, T_, V_ = s_, m_[:, None, None], mk(ts)[:, None], mk(v0)
+        elif lay in ("flat", "matrix"):
             a, b = (1, g.randint(2, 12)) if lay == "flat" else (g.randint(2, 4), g.randint(1, 4))
             pts = [gen_point(g, True) for _ in range(a * b)]
             elems = [(s, m, t, v) for s, t, v, _, m in pts]
@@ -101,41 +142,62 @@ def batched_block(ctx, torch, g, n_batches):
                 S_, M_, T_, V_ = big[:, 1:2], big2[1][:, None], t_[None, :], mk([[v0]])
             else:                       # stride-0 expanded views of the full shape
                 S_, M_, T_, V_ = s_[:, None].expand(n, q), m_[:, None].expand(n, q), t_[None, :].expand(n, q), mk(v0).expand(n, q)
-        via = g.choice(["functional", "functional", "module"])
-        regimes = sorted({("below" if m < 0 else "at" if m == 0 else "above") + ("/spot-at-max" if s == m else "/spot-below-max") for s, m, _, _ in elems})
+        via = g.choice(["functional", "module", "positional"] if maxlay else ["functional", "functional", "module"])
+        dom = [m >= s for s, m, _, _ in elems]        # in the domain of the property (always, except on the max-broadcast grids)
+        shape_nomax = tuple(torch.broadcast_shapes(S_.shape, T_.shape, V_.shape))
+        regimes = sorted({("below" if m < 0 else "at" if m == 0 else "above") + ("/spot-at-max" if s == m else "/spot-below-max") for (s, m, _, _), ok in zip(elems, dom) if ok})
         mixed = any(r.startswith("below") for r in regimes) and any(not r.startswith("below") for r in regimes)
         case = {"kind": "batched", "layout": lay, "via": via, "k": k, "shape": list(shape), "elems": [list(e) for e in elems], "regimes": regimes}
-        ctx.case(case, mixed, tag="batched")
+        if maxlay:
+            case |= {"shapes": {"log_moneyness": list(S_.shape), "max_log_moneyness": list(M_.shape), "time_to_maturity": list(T_.shape), "volatility": list(V_.shape)}}
+        ctx.case(case, mixed, tag="batched-max-broadcast" if maxlay else "batched")
         ctx.stats[f"batched layout={lay}"] += 1
         ctx.stats["batched mixed-regimes" if mixed else "batched one-regime"] += 1
         ctx.traces += 1
         out = {}
-        i0 = g.randint(0, len(elems) - 1)
+        i0 = g.choice([i for i, ok in enumerate(dom) if ok])
         for fn, call in FNS:
             mod = None
-            if via == "module":
-                if fn == "european_price":
-                    mod = BSEuropeanOption(call=call, strike=k)
-                    val = mod.price(S_, T_, V_)
-                elif fn == "european_binary_price":
-                    mod = BSEuropeanBinaryOption(call=call, strike=k)
-                    val = mod.price(S_, T_, V_)
-                elif fn == "american_binary_price":
-                    mod = BSAmericanBinaryOption(strike=k)
-                    val = mod.price(S_, M_, T_, V_)
-                else:
+
+            def quote_batch():
+                nonlocal mod
+                if via == "module":
+                    if fn == "european_price":
+                        mod = BSEuropeanOption(call=call, strike=k)
+                        return mod.price(S_, T_, V_)
+                    if fn == "european_binary_price":
+                        mod = BSEuropeanBinaryOption(call=call, strike=k)
+                        return mod.price(S_, T_, V_)
+                    if fn == "american_binary_price":
+                        mod = BSAmericanBinaryOption(strike=k)
+                        return mod.price(S_, M_, T_, V_)
                     mod = BSLookbackOption(strike=k)
-                    val = mod.price(S_, M_, T_, V_)
+                    return mod.price(S_, M_, T_, V_)
+                if via == "positional":
+                    return call_bs_positional(torch, g, fn, S_, T_, V_, k, M_, call)
+                return call_bs(torch, fn, S_, T_, V_, k, M_, call)
+            if maxlay:
+                st, val, mut = call_impl(quote_batch, watch=[("log_moneyness", S_), ("max_log_moneyness", M_), ("time_to_maturity", T_), ("volatility", V_)])
+                if mut:
+                    ctx.mutated("bs_" + fn, mut, case)
+                if st != "ok":
+                    ctx.fail("the price cannot be evaluated on a broadcast grid whose running maximum has more dimensions than spot / time / volatility "
+                             "(the relations have to hold element-wise on it)", case | {"fn": fn, "call": call}, key=f"batched:{fn}:max-broadcast:error", detail=val)
+                    out = None
+                    break
             else:
-                val = call_bs(torch, fn, S_, T_, V_, k, M_, call)
-            if tuple(val.shape) != tuple(shape):
+                val = quote_batch()
+            want = tuple(shape) if "m" in FN_ARGS[fn] else shape_nomax
+            if tuple(val.shape) != want:
                 ctx.fail("batched price does not have the broadcast shape of its inputs", case | {"fn": fn, "call": call},
-                         key=f"batched:{fn}:shape", detail={"got": list(val.shape), "expected": list(shape)})
+                         key=f"batched:{fn}:max-broadcast:shape" if maxlay else f"batched:{fn}:shape", detail={"got": list(val.shape), "expected": list(want)})
                 out = None
                 break
-            vals = [float(x) for x in val.reshape(-1)]
+            vals = [float(x) for x in torch.broadcast_to(val, tuple(shape)).reshape(-1)]
             out[(fn, call)] = vals
             for i, (s, m, t, v) in enumerate(elems):
+                if not dom[i]:
+                    continue
                 one = float(call_bs(torch, fn, [s], [t], [v], k, [m], call))
                 if not same_bits(vals[i], one):
                     ctx.fail("the price of one scenario depends on what else is evaluated in the same batch (batched value differs from the one-element call)",
@@ -153,10 +215,20 @@ def batched_block(ctx, torch, g, n_batches):
                              key=f"batched:{fn}:module-asked-again", detail={"again": [float(x) for x in again.reshape(-1)], "single": one})
         if out is None:
             continue
+        if maxlay and items is not None:
+            for i in [g.choice([i for i, ok in enumerate(dom) if ok]) for _p in range(2)]:
+                s, m, t, v = elems[i]
+                for fn, call in FNS:
+                    items.append((fn, call, [s, t, v, k, m]))
+                    metas.append((case | {"index": i, "fn": fn, "call": call}, out[(fn, call)][i]))
         for i, (s, m, t, v) in enumerate(elems):
+            if not dom[i]:
+                continue
+
             def bad(what, key, **d):
-                ctx.fail(what + " (batched evaluation)", case | {"index": i, "point": {"s": s, "m": m, "t": t, "v": v}}, key=key, detail=d)
-            point_relations(bad, "batched:", k * math.exp(s), k, k * math.exp(m), m >= 0,
+                ctx.fail(what + (" (evaluation on a grid whose running maximum is broadcast against spot / time / volatility)" if maxlay else " (batched evaluation)"),
+                         case | {"index": i, "point": {"s": s, "m": m, "t": t, "v": v}}, key=key, detail=d)
+            point_relations(bad, "batched-max-broadcast:" if maxlay else "batched:", k * math.exp(s), k, k * math.exp(m), m >= 0,
                             out[("european_price", True)][i], out[("european_price", False)][i],
                             out[("european_binary_price", True)][i], out[("european_binary_price", False)][i],
                             out[("american_binary_price", True)][i], out[("lookback_price", True)][i])
@@ -164,8 +236,80 @@ def batched_block(ctx, torch, g, n_batches):
 
 ROUTES = ("stock", "other", "own:c", "own:p", "own:bc", "own:bp", "own:ab", "own:lb")
 
+_USER = {}
 
-def derivative_block(ctx, torch, g, n_scen, items, metas):
+
+def user_classes():
+    """user-defined derivative classes written as SUBCLASSES of library derivatives (for the constructor / attributes they
+    share), each with its own Black-Scholes module registered under its own class name through the documented API
+    BlackScholesModuleFactory().register_module(name, cls); some of the modules are user subclasses of the library modules,
+    some contracts are subclasses of subclasses.  slot -> list of (derivative class, registered module class);
+    the slot says which price the contract has (c/p European, bc/bp European binary, ab American binary, lb lookback).
+    Returns (slots, registered names)."""
+    if _USER:
+        return _USER["slots"], _USER["names"]
+    import pfhedge.instruments as pin
+    import pfhedge.nn as pnn
+    from pfhedge.nn.functional import american_binary_payoff, lookback_payoff
+    from pfhedge.nn.modules.bs.black_scholes import BlackScholesModuleFactory
+
+    class VerifCall(pin.EuropeanOption):
+        """a European option under another name"""
+
+    class VerifDigital(pin.EuropeanBinaryOption):
+        """a European binary option under another name"""
+
+    class VerifOneTouchOption(pin.EuropeanBinaryOption):
+        """pays one at maturity if the spot has ever been at or above the strike (constructor of the European binary)"""
+
+        def payoff_fn(self):
+            return american_binary_payoff(self.ul().spot, call=self.call, strike=self.strike)
+
+    class VerifMaxCall(pin.EuropeanOption):
+        """call on the running maximum = fixed-strike lookback call (constructor of the European option)"""
+
+        def payoff_fn(self):
+            return lookback_payoff(self.ul().spot, call=self.call, strike=self.strike)
+
+    class VerifTouch(pin.AmericanBinaryOption):
+        """an American binary option under another name"""
+
+    class VerifLookback(pin.LookbackOption):
+        """a lookback option under another name"""
+
+    class VerifOneTouch2(VerifDigital):
+        """a one-touch written on top of a user-defined European binary (two levels below the library class)"""
+
+        def payoff_fn(self):
+            return american_binary_payoff(self.ul().spot, call=self.call, strike=self.strike)
+
+    class VerifMaxCall2(VerifCall):
+        """a call on the maximum written on top of a user-defined European option"""
+
+        def payoff_fn(self):
+            return lookback_payoff(self.ul().spot, call=self.call, strike=self.strike)
+
+    class VerifBSEuropean(pnn.BSEuropeanOption):
+        """user module: the library formula under another name"""
+
+    class VerifBSAmericanBinary(pnn.BSAmericanBinaryOption):
+        """user module: the library formula under another name"""
+
+    pairs = [("c", VerifCall, VerifBSEuropean), ("bc", VerifDigital, pnn.BSEuropeanBinaryOption),
+             ("ab", VerifOneTouchOption, pnn.BSAmericanBinaryOption), ("lb", VerifMaxCall, pnn.BSLookbackOption),
+             ("ab", VerifTouch, VerifBSAmericanBinary), ("lb", VerifLookback, pnn.BSLookbackOption),
+             ("ab", VerifOneTouch2, VerifBSAmericanBinary), ("lb", VerifMaxCall2, pnn.BSLookbackOption)]
+    slots = {"c": [], "p": [], "bc": [], "bp": [], "ab": [], "lb": []}
+    factory = BlackScholesModuleFactory()
+    for slot, dcls, mcls in pairs:
+        factory.register_module(dcls.__name__, mcls)
+        slots[slot].append((dcls, mcls))
+    slots["p"], slots["bp"] = list(slots["c"]), list(slots["bc"])
+    _USER.update(slots=slots, names=[dcls.__name__ for _s, dcls, _m in pairs])
+    return slots, _USER["names"]
+
+
+def derivative_block(ctx, torch, g, n_scen, items, metas, family="library"):
     """prices that BlackScholes(derivative) takes from a simulated derivative (log-moneyness, running
     maximum, time to maturity and volatility all come from the instrument): non-dyadic strikes, the
     underlier started exactly on the strike (so the barrier is reached at step 0 whatever happens later),
@@ -182,7 +326,14 @@ def derivative_block(ctx, torch, g, n_scen, items, metas):
     quote has to satisfy the relations with respect to the paths that the underlier carries NOW (spot and
     running maximum recomputed here from stock.spot); a deep copy keeps satisfying them on its own paths.
     Points of the float64 quotes are also sent to the model (op bs) with log-moneyness / running maximum /
-    time to maturity recomputed here from the current spot."""
+    time to maturity recomputed here from the current spot.
+
+    family="subclass" (round 5): the quoted contracts are instances of USER-DEFINED SUBCLASSES of the library derivatives
+    (user_classes(): a one-touch written as a subclass of EuropeanBinaryOption, a call on the maximum as a subclass of
+    EuropeanOption, renamed contracts, subclasses of subclasses), each registered with its own Black-Scholes module under its
+    own class name.  BlackScholes(derivative) has to hand out (an instance of) the module class registered for the most derived
+    class, i.e. for the class of the derivative itself, and the relations have to hold for what it quotes; the library
+    derivatives that fill the remaining slots are written on the same underlier.  Keys carry the prefix "subclass-"."""
     import copy
     from pfhedge.instruments import BrownianStock, EuropeanOption, EuropeanBinaryOption, AmericanBinaryOption, LookbackOption
     from pfhedge.nn import BlackScholes
@@ -229,18 +380,30 @@ def derivative_block(ctx, torch, g, n_scen, items, metas):
             later.append({"event": ev, "route": g.choice(ROUTES), "start": st2, "init_state": in2,
                           "n_paths": g.choice([n_paths, g.randint(1, 6)]), "torch_seed": g.randint(0, 10 ** 6)})
         keep_modules, bsm = g.chance(0.5), {}
+        LIB = {"c": EuropeanOption, "p": EuropeanOption, "bc": EuropeanBinaryOption, "bp": EuropeanBinaryOption, "ab": AmericanBinaryOption, "lb": LookbackOption}
+        cls_of, registered = dict(LIB), {}
+        if family == "subclass":
+            slots, _names = user_classes()
+            # the path-dependent contracts are always user-defined, each of the others half of the time
+            for nm in NAMES:
+                if nm in ("ab", "lb") or g.chance(0.5):
+                    cls_of[nm], registered[nm] = g.choice(slots[nm])
+        fam = "" if family == "library" else "subclass-"
         case = {"kind": "derivative", "dtype": str(dtype), "strike": K, "sigma": sigma, "dt": dt, "n_steps": n_steps,
                 "start": start, "init_state": init, "n_paths": n_paths, "torch_seed": tseed, "route": route, "later": later,
                 "pricing_modules": "kept" if keep_modules else "rebuilt for every quote"}
-        ctx.case(case, True, tag="derivative")
+        if family == "subclass":
+            case |= {"classes": {nm: f"{cls_of[nm].__name__}({cls_of[nm].__mro__[1].__name__}) registered with {registered[nm].__name__}" if nm in registered
+                                 else cls_of[nm].__name__ for nm in NAMES}}
+        ctx.case(case, True, tag="derivative" if family == "library" else "derivative-subclass")
         ctx.stats[f"derivative start={start}"] += 1
         ctx.stats[f"derivative dtype={str(dtype).split('.')[-1]}"] += 1
         ctx.traces += 1
         stock = BrownianStock(sigma=sigma, dt=dt).to(dtype)
         ders = {
-            "c": EuropeanOption(stock, call=True, strike=K, maturity=maturity), "p": EuropeanOption(stock, call=False, strike=K, maturity=maturity),
-            "bc": EuropeanBinaryOption(stock, call=True, strike=K, maturity=maturity), "bp": EuropeanBinaryOption(stock, call=False, strike=K, maturity=maturity),
-            "ab": AmericanBinaryOption(stock, strike=K, maturity=maturity), "lb": LookbackOption(stock, strike=K, maturity=maturity),
+            "c": cls_of["c"](stock, call=True, strike=K, maturity=maturity), "p": cls_of["p"](stock, call=False, strike=K, maturity=maturity),
+            "bc": cls_of["bc"](stock, call=True, strike=K, maturity=maturity), "bp": cls_of["bp"](stock, call=False, strike=K, maturity=maturity),
+            "ab": cls_of["ab"](stock, strike=K, maturity=maturity), "lb": cls_of["lb"](stock, strike=K, maturity=maturity),
             "other": EuropeanOption(stock, strike=1.0, maturity=maturity),      # written on the same underlier, never quoted
         }
 
@@ -270,11 +433,24 @@ def derivative_block(ctx, torch, g, n_scen, items, metas):
                 # the pricing module of a derivative is kept and asked again after the events (half of the scenarios)
                 mod = bsm.get((who, nm)) if keep_modules else None
                 if mod is None:
-                    mod = bsm[(who, nm)] = BlackScholes(ders[nm])
+                    if nm in registered:
+                        st, mod, _ = call_impl(BlackScholes, ders[nm])
+                        if st != "ok":
+                            ctx.fail("BlackScholes(derivative) raised for a user-defined subclass of a library derivative that has its own module registered under its own name",
+                                     scase | {"derivative": nm}, key="subclass-" + pre + "construct", detail=mod)
+                            return False
+                        if type(mod) is not registered[nm] or getattr(mod, "derivative", None) is not ders[nm]:
+                            ctx.fail("BlackScholes(derivative) does not hand out the module registered for the class of the derivative (a user-defined subclass of a library "
+                                     "derivative, registered under its own name through BlackScholesModuleFactory().register_module), bound to that derivative",
+                                     scase | {"derivative": nm}, key="subclass-" + pre + "resolution",
+                                     detail={"got": type(mod).__name__, "registered": registered[nm].__name__, "mro": [c_.__name__ for c_ in type(ders[nm]).__mro__[:4]]})
+                        bsm[(who, nm)] = mod
+                    else:
+                        mod = bsm[(who, nm)] = BlackScholes(ders[nm])
                 st, val, _ = call_impl(mod.price)
                 if st != "ok" or tuple(val.shape) != tuple(spot.shape):
                     ctx.fail("BlackScholes(derivative).price() raised / has not the shape of the simulated spot", scase | {"derivative": nm},
-                             key=pre + "price-call", detail=str(val)[:300] if st != "ok" else list(val.shape))
+                             key=fam + pre + "price-call", detail=str(val)[:300] if st != "ok" else list(val.shape))
                     return False
                 pr[nm] = val.to(torch.float64)
             f32 = dtype == torch.float32
@@ -292,7 +468,7 @@ def derivative_block(ctx, torch, g, n_scen, items, metas):
                     def bad(what, key, **d):
                         ctx.fail(what + " (price taken from the simulated derivative" + ("" if pre == "derivative:" else "; " + stage) + ")",
                                  scase | {"path": i, "step": j, "spot_path": [float(x) for x in spot[i, :j + 1]], "strike_in_dtype": Kd}, key=key, detail=d)
-                    point_relations(bad, pre, S, K, M, M >= Kd, *(float(pr[nm][i, j]) for nm in NAMES), **tol)
+                    point_relations(bad, fam + pre, S, K, M, M >= Kd, *(float(pr[nm][i, j]) for nm in NAMES), **tol)
             if not f32 and live:
                 # correspondence on the same quotes: the model at the arguments the derivative has to hand to the formula
                 # (log(S/K), log(running max/K) formed as the instrument documents them, from the current spot)
@@ -442,7 +618,9 @@ def check(ctx):
             if abs(lo - hi) > 1e-9 * sc:
                 bad("lookback price jumps where the running maximum crosses the strike", "relation:lookback-continuity", below=lo, at=hi)
     batched_block(ctx, torch, g, 120 if ctx.tier == "quick" else 1000)
+    batched_block(ctx, torch, g, 48 if ctx.tier == "quick" else 400, layouts=MAX_LAYOUTS, items=items, metas=metas)
     derivative_block(ctx, torch, g, 80 if ctx.tier == "quick" else 600, items, metas)
+    derivative_block(ctx, torch, g, 32 if ctx.tier == "quick" else 250, items, metas, family="subclass")
     try:
         mv = model_vals(ctx, items)
     except DriverBroken as e:
@@ -457,4 +635,9 @@ def check(ctx):
              "functional or module) compared bit for bit with the one-element calls and checked against the point relations (non-trivial = regimes mixed); Black-Scholes modules reading simulated derivatives (BrownianStock float32/float64, "
              "decimal / random strikes, started exactly on / below / above the strike, 1-6 paths, 2-8 steps) checked against the point relations at every step with time to maturity > 0; "
              "six derivatives on ONE underlier, quoted again after 0-2 later events (underlier simulated again directly / through any of the six / through a seventh derivative, market cast to the other precision, deep copy taken "
-             "before the originals move on; pricing modules kept or rebuilt), spot and running maximum recomputed from the current stock.spot; two points of every float64 quote also sent to the model, and one whole path of every float64 quote to the model of the MODULE layer (op bs_module: module built from the same one-path market, construction + price at every live step, rel 1e-9); distinct = sha1 of canonical case")
+             "before the originals move on; pricing modules kept or rebuilt), spot and running maximum recomputed from the current stock.spot; two points of every float64 quote also sent to the model, and one whole path of every float64 quote to the model of the MODULE layer (op bs_module: module built from the same one-path market, construction + price at every live step, rel 1e-9); "
+             "max-broadcast grids on every tier (running maximum (n,1) against (q,) spots, (n,) against 0-dim spot / time / volatility, (n,1,1) against (r,1) x (q,); histories at a spot, at the strike, "
+             "just below it, above; functional / positional / module; in-domain pairs only; bit for bit against one-element calls, point relations, two elements per grid to the model); "
+             "the derivative scenarios repeated with user-defined subclasses of the library derivatives (one-touch as a subclass of EuropeanBinaryOption, call on the maximum as a subclass of "
+             "EuropeanOption, renamed contracts, subclasses of subclasses; own module — library class or user subclass of it — registered under the own class name): class and binding of "
+             "BlackScholes(derivative) + all relations + model of the module layer; distinct = sha1 of canonical case")
